@@ -1,4 +1,4 @@
-HOOK_COMMITS = ["02bc05e", "18a3dee", "c34a517"]
+HOOK_COMMITS = ["02bc05e", "18a3dee", "c34a517", "1653682"]
 NOT_APPLICABLE = {}
 TEXT = {
  "C17": {
@@ -243,5 +243,30 @@ TEXT = {
           "on every run and listed as known findings F13a-e.",
   "technique": "Lean 4 proof (core List.mergeSort/Perm lemmas, induction, decide witnesses) + regenerated facts from AST + "
                "differential correspondence + ledger monitor on a real chain",
+ },
+ "C15": {
+  "text": "Kernel-checked theorems over the Go-faithful model of handleMsg (size gate, dispatch, the uint64 request arithmetic of "
+          "GetBlockHashes / GetBlockHashesFromNumber / GetBlocks incl. GetMomentumsByHeight's range and the nil/makeslice panics): "
+          "reply caps for every chain height and request (from-number only for Number+Amount >= 2), no panic (only for held hashes), "
+          "size gate before decoding, unknown codes refused without state change; negative witnesses for the two false clauses; "
+          "model tied to the tree by regenerated constants/AST facts and by a differential stream driving the real ProtocolManager.",
+  "design_ref": "§3 C15",
+  "note": "Only the handler logic is proved. Survival on arbitrary bytes, allocation inside rlp, goroutine hygiene and liveness are "
+          "differential testing against the total model, not proof; the rlpx frame reader and the discovery packet decoder have "
+          "monitor-only mutation streams, no theorem. Known findings "
+          "F7a (unknown hash panics) and F7b (Number+Amount<=1 returns the whole chain) are open.",
+  "technique": "Lean 4 proof (omega/case analysis) + regenerated constants and AST facts + differential correspondence over p2p.MsgPipe",
+ },
+ "C16": {
+  "text": "Kernel-checked theorems over a line-by-line model of chainBridge.InsertChain on an abstract chain with a verification "
+          "oracle: a node leaves its chain only when the delivered suffix links to an own momentum at most 30 below the frontier and "
+          "claims a greater height; every new element passed the oracle in order and the chain stays linked; on a verification error "
+          "the index is the position in the original batch and the node holds exactly the verified prefix; known batches are no-ops; "
+          "no panic under stated premises (negative witnesses otherwise). Tied by AST facts (window 30, operators, returned indices) "
+          "and a differential stream feeding followers through the real InsertChain.",
+  "design_ref": "§3 C16",
+  "note": "Verification itself (verifier/*, vm) is an oracle here. Known findings F7c (panics on empty / non-linking-by-height batches), "
+          "F7d (rollback before verification) are open; F7e (stale-parent momentum silently dropped and reported as success) was fixed in 9a5065f.",
+  "technique": "Lean 4 proof (induction over the batch) + AST facts + differential correspondence on real nodes + model-free monitors",
  },
 }
